@@ -1,12 +1,84 @@
-/- Drv/C09.lean — driver handler for property C09 (line protocol; core-only imports). -/
+/- Drv/C09.lean — driver handler for property C09 (plated sum-product). Core-only imports. -/
 import FunsorVerif.Core.Sexp
 import FunsorVerif.Core.XR
+import FunsorVerif.Core.Semiring
+import FunsorVerif.Model.C09
 namespace FV.Drv.C09
-open FV
+open FV FV.C09
 
-/-- `args` are the top-level S-expressions following the property tag on the request line. -/
+def opsOf (s : SR) : Ops XR := ⟨s.add, s.mul, s.zero, s.one⟩
+
+def parseInputs (s : Sexp) : Option (List (Name × Nat)) := do
+  let xs ← s.asList?
+  xs.mapM fun p => match p with
+    | Sexp.list [n, k] => do pure ((← n.asStr?), (← k.asNat?))
+    | _ => none
+
+def parseFactor (s : Sexp) : Option (Factor XR) :=
+  match s with
+  | Sexp.list [inp, dat] => do
+    let inputs ← parseInputs inp
+    let ds ← dat.asList?
+    let data ← ds.mapM XR.ofSexp?
+    pure ⟨inputs, data⟩
+  | _ => none
+
+def parseFactors (s : Sexp) : Option (List (Factor XR)) := do
+  let xs ← s.asList?
+  xs.mapM parseFactor
+
+def showInputs (i : List (Name × Nat)) : Sexp :=
+  Sexp.list (i.map fun p => Sexp.list [Sexp.atom p.1, Sexp.ofNat p.2])
+
+def showFactor (f : Factor XR) : Sexp :=
+  Sexp.list [showInputs f.inputs, Sexp.list (f.data.map XR.toSexp)]
+
+def showVals (v : List XR) : Sexp := Sexp.list (v.map XR.toSexp)
+
+def showErr (e : Err) : String := "ok (error " ++ e.toString ++ ")"
+
+/-- value of the product of a result list at every point of `free`, plus the list itself -/
+def showResults (o : Ops XR) (free : List (Name × Nat)) : Except Err (List (Factor XR)) → String
+  | .error e => showErr e
+  | .ok rs =>
+    match (prodAll o rs).bind (tableOver · free) with
+    | some vs => "ok (value " ++ toString (showVals vs) ++ " " ++ toString (Sexp.list (rs.map showFactor)) ++ ")"
+    | none => "err result-not-over-free-inputs"
+
+/--
+  C09 unroll  SR FACTORS (elim…) (plates…) ((plate scale)…) ((free size)…)       -> ok (value (v…))
+  C09 psp     SR FACTORS (elim…) (plates…) ((plate scale)…) ((free size)…) MOD PED -> ok (value (v…) (F…)) | ok (error e)
+  C09 psp2    SR FACTORS (e1…) (e2…) (plates…) ((free size)…)                    -> same shape
+  C09 einsum  SR FACTORS (output…) (plates…) ((free size)…)                      -> same shape
+  FACTORS = ( (((name size)…) (d…)) … )
+-/
 def handle (args : List Sexp) : String :=
   match args with
-  | _ => "err unimplemented"
+  | [Sexp.atom "unroll", Sexp.atom srn, fs, el, pl, sc, fr] =>
+    match SR.ofName? srn, parseFactors fs, el.asStrs?, pl.asStrs?, parseInputs sc, parseInputs fr with
+    | some sr, some fs, some el, some pl, some sc, some fr =>
+      match unroll (opsOf sr) fs el pl sc fr with
+      | .ok vs => "ok (value " ++ toString (showVals vs) ++ ")"
+      | .error e => showErr e
+    | _, _, _, _, _, _ => "err bad-args"
+  | [Sexp.atom "psp", Sexp.atom srn, fs, el, pl, sc, fr, md, pd] =>
+    match SR.ofName? srn, parseFactors fs, el.asStrs?, pl.asStrs?, parseInputs sc, parseInputs fr,
+          md.asBool?, pd.asBool? with
+    | some sr, some fs, some el, some pl, some sc, some fr, some md, some pd =>
+      showResults (opsOf sr) fr (psp (opsOf sr) fs el pl sc md pd)
+    | _, _, _, _, _, _, _, _ => "err bad-args"
+  | [Sexp.atom "psp2", Sexp.atom srn, fs, e1, e2, pl, fr] =>
+    match SR.ofName? srn, parseFactors fs, e1.asStrs?, e2.asStrs?, pl.asStrs?, parseInputs fr with
+    | some sr, some fs, some e1, some e2, some pl, some fr =>
+      showResults (opsOf sr) fr (psp2 (opsOf sr) fs e1 e2 pl)
+    | _, _, _, _, _, _ => "err bad-args"
+  | [Sexp.atom "einsum", Sexp.atom srn, fs, out, pl, fr] =>
+    match SR.ofName? srn, parseFactors fs, out.asStrs?, pl.asStrs?, parseInputs fr with
+    | some sr, some fs, some out, some pl, some fr =>
+      match einsumElim (fs.map Factor.names) out pl with
+      | .error e => showErr e
+      | .ok el => showResults (opsOf sr) fr ((sumProduct (opsOf sr) fs el pl []).map ([·]))
+    | _, _, _, _, _ => "err bad-args"
+  | _ => "err bad-request"
 
 end FV.Drv.C09
